@@ -26,30 +26,34 @@ record's epoch. -/
 def Matches (o : Obj) (r : PRec) : Prop :=
   o.key = r.key ∧ o.off = r.off ∧ o.size = r.size ∧ o.copied = true ∧ ∃ e, o.fin = some e ∧ e ≤ r.epoch
 
-/-- Facts about the objects and the blocks of the list. -/
-structure ObjInv (c : Cfg) (objs : List Obj) (p : PBL) (zombies : List Blk) (pins : List Nat) (nextObj : Nat)
+/-- Facts about the objects and the blocks. -/
+structure ObjInv (c : Cfg) (objs : List Obj) (p : PBL) (zombies : List Blk) (pins : List Nat) (nextObj nextGid : Nat)
     (shadow : List (Nat × Nat)) : Prop where
   ids : (objs.map (·.id)).Nodup
   idLt : ∀ o ∈ objs, o.id < nextObj
   size : ∀ o ∈ objs, 1 ≤ o.size
+  gidLt : ∀ o ∈ objs, o.gid < nextGid
+  slotOk : ∀ o ∈ objs, ∀ b ∈ held p zombies, b.gid = o.gid → o.slot = b.slot
   /-- an object of the running process sits in the block it was allocated in -/
   place : ∀ o ∈ objs, o.mine = true → ∀ i b, p.blocks[i]? = some b → b.gid = o.gid →
-    o.abs = p.released + i ∧ o.slot = b.slot ∧ b.base ≤ o.off ∧ o.off + o.size ≤ b.cursor
+    o.abs = p.released + i ∧ o.off + o.size ≤ b.cursor
   absIn : ∀ o ∈ objs, o.mine = true → o.abs < p.released + p.blocks.length ∧
     (p.released ≤ o.abs → ∃ b, p.blocks[o.abs - p.released]? = some b ∧ b.gid = o.gid)
-  /-- restored objects lie below the cursor their block was re-attached with -/
+  /-- objects of the running process lie above the cursor their block was attached with ... -/
+  baseLe : ∀ o ∈ objs, o.mine = true → ∀ b ∈ held p zombies, b.gid = o.gid → b.base ≤ o.off
+  /-- ... restored objects below it (`C02_no_overwrite_after_restart`, the cursor half) -/
   restored : ∀ o ∈ objs, o.mine = false → o.durable = true ∧ o.copied = true ∧
-    ∀ b ∈ p.blocks, b.gid = o.gid → o.slot = b.slot ∧ o.off + o.size ≤ b.base
+    ∀ b ∈ held p zombies, b.gid = o.gid → o.off + o.size ≤ b.base
   disj : ∀ o1 ∈ objs, ∀ o2 ∈ objs, o1.mine = true → o2.mine = true → o1.gid = o2.gid → o1.id ≠ o2.id →
     o1.off + o1.size ≤ o2.off ∨ o2.off + o2.size ≤ o1.off
-  /-- the device region of every object that matters is held -/
-  heldW : ∀ o ∈ objs, o.mine = true → o.copied = false → ∃ b ∈ held p zombies, b.gid = o.gid ∧ b.slot = o.slot
-  pinCount : ∀ g, pins.count g = (objs.filter fun o => o.mine && !o.copied && o.gid == g).length
-  zombiePinned : ∀ z ∈ zombies, z.gid ∈ pins
+  /-- the device region of an object that is still being written is held -/
+  heldW : ∀ o ∈ objs, o.mine = true → o.copied = false → ∃ b ∈ held p zombies, b.gid = o.gid
+  pinCount : ∀ g, (objs.filter fun o => o.mine && !o.copied && o.gid == g).length ≤ pins.count g
   fin : ∀ o ∈ objs, o.fin.isSome → o.copied = true
   flags : ∀ o ∈ objs, (o.precov = true → o.mine = true ∧ o.copied = true) ∧ (o.durable = true → o.copied = true)
   shadow : ∀ o ∈ objs, o.copied = true → (o.key, o.data) ∈ shadow
-  baseAligned : ∀ b ∈ p.blocks, c.ss ∣ b.base ∧ b.base ≤ b.cursor ∧ b.cursor ≤ c.bs
+  aligned : ∀ b ∈ held p zombies, c.ss ∣ b.base
+  cursor : ∀ b ∈ p.blocks, b.base ≤ b.cursor
 
 /-- Epochs and offsets: what `NotifySyncStarting` / `NotifySyncCompleted` may expose
 (`C02_epoch_covered`). -/
@@ -65,7 +69,7 @@ structure EpochInv (objs : List Obj) (p : PBL) (g1 : G1) : Prop where
   precov : ∀ o ∈ objs, o.precov = true → ∃ f, g1 = .syncing f
 
 /-- The data device and the ghost flags. -/
-structure DevInv (c : Cfg) (objs : List Obj) (d : DataDev) (p : PBL) (zombies : List Blk) : Prop where
+structure DevInv (c : Cfg) (objs : List Obj) (d : DataDev) (p : PBL) (zombies : List Blk) (nextObj : Nat) : Prop where
   pref : CovPrefix d.pend
   mine : ∀ o ∈ objs, o.mine = true → o.copied = true → (∃ b ∈ held p zombies, b.gid = o.gid) →
     ∀ s ∈ secsOf c.ss o.off o.size, Tail d o.id o.slot s
@@ -77,5 +81,7 @@ structure DevInv (c : Cfg) (objs : List Obj) (d : DataDev) (p : PBL) (zombies : 
   content : ∀ o1 ∈ objs, ∀ o2 ∈ objs, ∀ (L : List Nat) (slot s : Nat),
     (L = d.durGet slot s ∨ ∃ x ∈ d.pend, x.slot = slot ∧ x.sec = s ∧ L = x.objs) →
     o1.id ∈ L → o2.id ∈ L → o1.slot = slot → o2.slot = slot → o1.off = o2.off → o1.id = o2.id
+  contentLt : ∀ (L : List Nat) (slot s : Nat),
+    (L = d.durGet slot s ∨ ∃ x ∈ d.pend, x.slot = slot ∧ x.sec = s ∧ L = x.objs) → ∀ id ∈ L, id < nextObj
 
 end BB.Persist
